@@ -37,22 +37,27 @@ impl Adapter for MemoryAdapter {
         m: &mut dyn Model,
         f: Filter<'a>,
     ) -> Result<()> {
+        self.is_filtered = false;
         for line in self.policy.iter() {
             let sec = &line[0];
             let ptype = &line[1];
-            let rule = line[1..].to_vec().clone();
+            let rule = line[2..].to_vec();
             let mut is_filtered = false;
 
             if sec == "p" {
                 for (i, r) in f.p.iter().enumerate() {
-                    if !r.is_empty() && r != &rule[i + 1] {
+                    if !r.is_empty()
+                        && rule.get(i).map(|x| x.as_str()) != Some(*r)
+                    {
                         is_filtered = true;
                     }
                 }
             }
             if sec == "g" {
                 for (i, r) in f.g.iter().enumerate() {
-                    if !r.is_empty() && r != &rule[i + 1] {
+                    if !r.is_empty()
+                        && rule.get(i).map(|x| x.as_str()) != Some(*r)
+                    {
                         is_filtered = true;
                     }
                 }
